@@ -21,6 +21,7 @@ import (
 //	addrow      t.AddRow(<pending row Ref>)
 //	sep         AddSeparator()
 //	appendnew   t.AppendNewRow()
+//	zerorow     t.AddRow(new(tabular.Row))            (a zero-value row: not a separator, holds no cells, refuses Add)
 //
 // Ref is taken modulo the number of candidate rows; an operation without a
 // candidate is a counted no-op.
@@ -69,6 +70,7 @@ type MCell struct {
 // MRow is the model of one row (pending or attached).
 type MRow struct {
 	Sep      bool
+	NilCells bool // zero-value row: Cells() is nil although it is not a separator
 	Cells    []MCell
 	Attached bool
 	Pos      int // 1-based position once attached
@@ -194,6 +196,12 @@ func (m *Model) Step(t tabular.Table, op Op) {
 		m.All = append(m.All, r)
 		m.noteAttached(r)
 		m.ZeroCellRow = true
+	case "zerorow":
+		r := &MRow{NilCells: true, Real: new(tabular.Row)}
+		t.AddRow(r.Real)
+		m.All = append(m.All, r)
+		m.noteAttached(r)
+		m.ZeroCellRow = true
 	case "sep":
 		t.AddSeparator()
 		rows := t.AllRows()
@@ -221,9 +229,9 @@ func (m *Model) Step(t tabular.Table, op Op) {
 		r := m.All[mod(op.Ref, len(m.All))]
 		c := mcell(op.Items[0])
 		r.Real.Add(tabular.NewCell(c.Live.V))
-		if r.Sep {
+		if r.Sep || r.NilCells {
 			m.SepAdd = true
-			return // refused: a separator holds no cells
+			return // refused: a separator (or zero-value row) holds no cells
 		}
 		r.Cells = append(r.Cells, c)
 		if r.Attached {
